@@ -176,7 +176,7 @@ def loops_correspondence(ctx):
     for name, gen, fn in (("CoreSet", coreset_cases, "check_coreset"), ("ProbCover", probcover_cases, "check_probcover"),
                           ("Clue/DiscriminativeAL", oracle_loop_cases, "check_oracle_loop"), ("GreedySamplingX", gsx_cases, "check_gsx"),
                           ("TypiClust", typiclust_cases, "check_typiclust"), ("Badge", badge_cases, "check_sampling"),
-                          ("DropQuery", dropquery_cases, "check_oracle_loop")):
+                          ("DropQuery", dropquery_cases, "check_oracle_loop"), ("Falcun", falcun_cases, "check_sampling")):
         terms, meta = gen(ctx, count)
         bad, err = ctx.coq_eval_cases("loop_" + fn, IMPORTS, fn, terms, chunk=100)
         if err:
@@ -521,6 +521,93 @@ def badge_cases(ctx, count):
         ctx.hist[f"badge:{cmode}:" + ("fallback" if any(not np.any(r > 0) for r in rec) else "weights")] += 1
         if k >= 2:
             ctx.nontriv(("badge", X.tobytes(), y.tobytes(), cmode, repr(rcd["candidates"]), bs, seed))
+    return terms, meta
+
+
+# ---------------------------------------------------------------------------------------------
+# Falcun: the same sampling loop as Badge (weight 0 for earlier picks, uniform fallback over what is left, NaN marks, draws
+# respecting numpy's choice contract).  Its raw relevance weights (margin uncertainty + normalised distance in probability
+# space, to the power gamma) are not a separate function of the library, so the numeric layer is recomputed here from the
+# classifier's probabilities and the picks made so far - with the library's own uncertainty_scores - and handed to the model.
+def falcun_cases(ctx, count):
+    from sklearn.base import clone
+    from skactiveml.pool import Falcun
+    from skactiveml.pool._uncertainty_sampling import uncertainty_scores
+    from . import poolreg as R
+    from .core import fkey
+    rng = ctx.rng("falcun")
+    terms, meta = [], []
+    for h in range(count):
+        n = int(rng.integers(3, 10))
+        X = rng.integers(0, 3, size=(n, 2)).astype(float)            # integer grid: equal points -> equal probabilities -> zero distances
+        if rng.random() < 0.25:
+            X[:, :] = X[0]
+        classes = [0, 1] if rng.random() < 0.5 else [0, 1, 2]
+        y = np.where(rng.random(n) < rng.choice([0.0, 0.3, 0.6]), 1.0, np.nan) * rng.integers(0, len(classes), size=n)
+        if not np.isnan(y).any():
+            y[int(rng.integers(0, n))] = np.nan
+        unl = [int(i) for i in np.flatnonzero(np.isnan(y))]
+        cmode = str(rng.choice(["none", "idx", "feat"]))
+        if cmode == "none":
+            cand, cmap, width = None, unl, n
+        elif cmode == "idx":
+            sub = sorted(int(i) for i in rng.choice(unl, size=int(rng.integers(1, len(unl) + 1)), replace=False))
+            cand, cmap, width = np.array(sub), sub, n
+        else:
+            m_ = int(rng.integers(1, 6))
+            cand = X[rng.integers(0, n, size=m_)].copy()
+            cmap, width = list(range(m_)), m_
+        m = len(cmap)
+        bs = int(rng.integers(1, m + 2))
+        k = min(bs, m)
+        seed = int(rng.integers(0, 1000))
+        gamma = [10, 10, 1, 0, 2.5][int(rng.integers(0, 5))]
+        clf = R._table_clf()(salt=seed, classes=classes, random_state=seed) if rng.random() < 0.7 else R._clf(classes, seed)
+        rcd = {"strategy": "Falcun", "X": X.tolist(), "y": [None if v != v else v for v in y], "candidates_mode": cmode, "gamma": gamma,
+               "candidates": None if cand is None else np.asarray(cand).tolist(), "batch_size": bs, "seed": seed, "classes": classes}
+        try:
+            with warnings.catch_warnings():
+                warnings.simplefilter("ignore")
+                idx, ut = Falcun(gamma=gamma, random_state=seed).query(X, y, clf=clf, candidates=cand, batch_size=bs, return_utilities=True)
+                Xc = X[cmap] if cmode != "feat" else np.asarray(cand)
+                P = clone(clf).fit(X, y).predict_proba(Xc)
+                unc = uncertainty_scores(P, method="margin_sampling")
+        except Exception as e:
+            ctx.violation("Falcun", "exception:" + type(e).__name__, repr(e)[:300], rcd, what=f"Falcun.query raised {type(e).__name__}")
+            continue
+        idx = [int(i) for i in np.asarray(idx).ravel()]
+        ut = np.asarray(ut, dtype=float)
+        rcd["returned_indices"] = idx
+        if len(idx) != k or ut.shape != (k, width) or not set(idx) <= set(cmap):
+            ctx.violation("Falcun", "batch_length", f"{len(idx)} indices / utilities {ut.shape} for batch size {k}", rcd,
+                          what=f"Falcun: {len(idx)} indices, utilities of shape {ut.shape}, expected {k} x {width}")
+            continue
+        if np.any(~np.isnan(np.delete(ut, cmap, axis=1))):
+            ctx.violation("Falcun", "nan_pattern", "numbers at non-candidates", rcd, what="Falcun: utilities at non-candidates are not NaN")
+            continue
+        picks = [cmap.index(i) for i in idx]
+        raws, dist = [], unc.copy()
+        for b in range(k):
+            if b > 0:
+                dn = np.abs(P - P[[picks[b - 1]]]).sum(axis=1)
+                dist = np.minimum(dn, dist)
+                lo = dist.min()
+                rg = dist.max() - lo
+                dist = dist - lo
+                if rg > 0:
+                    dist = dist / rg
+            raws.append((unc + dist) ** gamma)
+        rl = []
+        for r in raws:
+            keys = rank_keys([fkey(v) for v in r])
+            rl.append(zlist([0 if v is None else v for v in keys]))
+        rows = listlit([listlit(["None" if v != v else ("(Some 1)" if v > 0 else "(Some 0)") for v in ut[i, cmap]]) for i in range(k)])
+        terms.append(f"({listlit(rl)}, {natlist(picks)}, {rows}, false)")
+        meta.append(rcd)
+        ctx.count("falcun_loop_correspondence")
+        ctx.hist[f"falcun:{cmode}:gamma{gamma}:" + ("fallback" if any(not np.any(r > 0) for r in raws) else "weights")] += 1
+        if k >= 2:
+            ctx.nontriv(("falcun", X.tobytes(), y.tobytes(), cmode, repr(rcd["candidates"]), bs, seed, gamma))
     return terms, meta
 
 
